@@ -31,6 +31,9 @@ CONSTRAINTS = [
     ("le", {(0,): 1, (1,): 1, (): -1}),                  # no ancilla
     ("le", {(0,): 1, (1,): 1, (2,): 1, (): -2}),         # slack ancillas
     ("ne", {(0,): 1, (1,): 1, (2,): -1}),                # sign ancilla + slack
+    ("gt", {(0,): 1, (1,): 1, (2,): -1}),                # each relation has its own wrapper around the ancilla counter
+    ("ge", {(0,): 2, (1,): -1, (2,): -1}),
+    ("lt", {(0,): 1, (1,): -1, (2,): 1, (): -1}),
 ]
 
 
@@ -65,7 +68,7 @@ def alphabet(typ):
     if typ in LABELLED:
         ops.append(["convert"])     # call every conversion and throw the results away: later states must not depend on it
     if typ in ("PCBO", "PCSO"):
-        ops += [["con", 0], ["con", 1], ["con", 2]]
+        ops += [["con", i] for i in range(len(CONSTRAINTS))]
     return ops
 
 
